@@ -132,6 +132,78 @@ func TestProp_ScriptedSupersedeDuringPickup(t *testing.T) {
 	})
 }
 
+// (v) the pool is stopped while a worker is between the emptiness test and take, with the stop
+// path itself parked between setting its flag and draining: whichever of the two goes first,
+// every request is either started or reported dropped.
+func TestProp_ScriptedStopDuringPickup(t *testing.T) {
+	rapid.Check(t, func(rt *rapid.T) {
+		conc := rapid.IntRange(1, 4).Draw(rt, "concurrency")
+		n1 := rapid.IntRange(1, conc+3).Draw(rt, "tick")
+		nth := int32(rapid.IntRange(1, min(n1, conc)).Draw(rt, "nthArrival"))
+		workerFirst := rapid.Bool().Draw(rt, "workerResumesFirst")
+		w := newStopWatcher()
+		gw := vlib.NewGate("pool.worker.before_take", nth, gateTimeout)
+		gs := vlib.NewGate("pool.stop.after_flag", 1, gateTimeout)
+		remove := vlib.InstallGates(w.observe, gw, gs)
+		defer remove()
+		r := newRig(0, conc, true, 0)
+		r.tick(n1)
+		reached := false
+		select {
+		case <-gw.Arrived():
+			reached = true
+		case <-time.After(gateTimeout):
+		}
+		if reached {
+			others := min(n1, conc-1)
+			waitUntil(func() bool { return int(r.entered.Load()) >= others })
+		}
+		r.cancel()
+		select {
+		case <-gs.Arrived():
+		case <-time.After(gateTimeout):
+			reached = false
+		}
+		before := r.entered.Load()
+		if workerFirst {
+			gw.Open()
+			// give the resumed worker time to take a job and enter its (gated) body
+			deadline := time.Now().Add(20 * time.Millisecond)
+			for time.Now().Before(deadline) && r.entered.Load() == before {
+				time.Sleep(50 * time.Microsecond)
+			}
+			gs.Open()
+		} else {
+			gs.Open()
+			select {
+			case <-w.done:
+			case <-time.After(gateTimeout):
+			}
+			gw.Open()
+		}
+		w.settled(r)
+		if !r.shutdown(20 * time.Second) {
+			rt.Fatalf("VERIF-VIOLATION C02: workers did not finish (c=%d tick=%d nth=%d workerFirst=%v)", conc, n1, nth, workerFirst)
+		}
+		started, dropped := uint64(r.entered.Load()), r.dropped()
+		cls := []string{}
+		if reached {
+			cls = append(cls, "gate-reached")
+		}
+		if workerFirst {
+			cls = append(cls, "worker-resumes-before-drain")
+		}
+		stats.Case("scripted-stop-pickup", fmt.Sprint(conc, n1, nth, workerFirst), reached, cls, func() any {
+			return map[string]any{"script": "stop while a worker is between the emptiness test and take", "concurrency": conc, "tick": n1, "parked_arrival": nth, "worker_first": workerFirst,
+				"started": started, "dropped": dropped}
+		})
+		if started+dropped != uint64(n1) {
+			rt.Fatalf("VERIF-VIOLATION C02: c=%d tick(%d): the pool was stopped while worker arrival #%d was between the emptiness test and take (worker resumed first: %v): %d started + %d dropped != %d requested",
+				conc, n1, nth, workerFirst, started, dropped, n1)
+		}
+	})
+}
+
 // (ii)/(iv) cancel while the ticking goroutine is between its context check and the hand-over,
 // optionally with the stop path parked between its flag and its drain.
 func TestProp_ScriptedCancelDuringTick(t *testing.T) {
